@@ -522,7 +522,7 @@ func contractMentions(P *Program, ct *Contract, hasTag func(string) bool) bool {
 		}
 		return false
 	}
-	if cl(ct.Requires) || cl(ct.Ensures) || cl(ct.Claims) || cl(ct.Modifies) || hasTag(ct.FrameTag) || hasTag(ct.Safety) {
+	if cl(ct.Requires) || cl(ct.Ensures) || cl(ct.Claims) || cl(ct.Modifies) || cl(ct.Yields) || hasTag(ct.FrameTag) || hasTag(ct.Safety) || (ct.Iterator && ct.IterTag != "" && hasTag(ct.IterTag)) {
 		return true
 	}
 	for _, is := range ct.Invs {
